@@ -155,7 +155,8 @@ def _config(arg):
     atnums = np.array(atnums, dtype=int)
     n = len(atnums)
     far = gname.endswith("-far")
-    atcoords = GEOMS[gname.replace("-far", "")][:n] + lattice.jitter(seed, f"{gname}{n}", 0.0, 0.03)
+    custom = {1: 0.9, 8: 1.35, 86: 2.0, 36: 1.7} if gname.endswith("-radii") else None   # user-supplied covalent radii
+    atcoords = GEOMS[gname.replace("-far", "").replace("-radii", "")][:n] + lattice.jitter(seed, f"{gname}{n}", 0.0, 0.03)
     pts = point_set(atcoords, seed)
     if far:
         # the same molecule and its nearby points 1e4 bohr from the origin (added after seeded change C06-I was missed:
@@ -164,6 +165,9 @@ def _config(arg):
         pts = pts[np.linalg.norm(pts, axis=1) < 12] + FAR_SHIFT
         atcoords = atcoords + FAR_SHIFT
     table = bragg()
+    if custom:
+        table = dict(table)
+        table.update(custom)
     W = ref_weights(pts, atcoords, atnums, order, table)
     case = {"geometry": gname, "atnums": atnums.tolist(), "order": order}
     key = f"{n}-atoms"
@@ -171,7 +175,7 @@ def _config(arg):
     assert np.all(W >= -1e-15) and np.all(W <= 1 + 1e-15) and np.allclose(W.sum(axis=0), 1.0, atol=1e-13)
     for a in range(n):
         assert abs(W[a, a] - 1.0) < 1e-13 and all(abs(W[a, b]) < 1e-13 for b in range(n) if b != a)
-    bw = BeckeWeights(order=order)
+    bw = BeckeWeights(order=order) if not custom else BeckeWeights(radii=dict(custom), order=order)
     snap = (pts.copy(), atcoords.copy(), atnums.copy())
     with warnings.catch_warnings():
         warnings.simplefilter("ignore")
@@ -499,6 +503,8 @@ def configs(thorough):
     for a in ((1, 8), (6, 1, 8), (8, 1, 1, 6), (1, 86, 8, 36, 6)):
         out.append(("generic-far", a, 3, True))
     out.append(("close-pair-far", (8, 36, 1), 3, True))
+    for a in ((1, 8), (8, 1, 6), (86, 1, 36, 8)):
+        out.append(("generic-radii", a, 3, True))
     return out
 
 
